@@ -71,7 +71,10 @@ namespace detail
 			if(Value == 0)
 				return -1;
 
-			return glm::bitCount(~Value & (Value - static_cast<genIUType>(1)));
+			// in the unsigned type: Value - 1 overflows for the most negative value of a signed type
+			typedef typename detail::make_unsigned<genIUType>::type UType;
+			UType const UValue = static_cast<UType>(Value);
+			return glm::bitCount(static_cast<UType>(~UValue & (UValue - static_cast<UType>(1))));
 		}
 	};
 
